@@ -33,7 +33,19 @@ Mutation sites (each classified, each counted)
 
 Control flow: branches are joined (union of origins: VIEW wins over FRESH), loops run to a fixpoint.
 Private helpers (leading underscore, called inside the analysed modules) are judged at their call sites
-with the actual arguments; every other function's parameters are caller-owned.
+with the actual arguments; every other function's parameters are caller-owned (`Program.is_entry_point`).
+
+Shapes that are the same thing for aliasing
+  generator function   a function that returns a FRESH iterable whose elements are (aliases of) the yielded values;
+                       `yield from xs` yields the elements of xs.  Only the producer protocol: the value of a yield
+                       expression (send) and a generator return value are refused (AnalysisError).
+  comprehension        a loop that fills a FRESH container; its elements keep their origins.
+  tuple                immutable and of known length: `fields` holds the value per position ("#0", "#1", ...), so
+                       `a, b = helper(x)` and `helper(x)[1]` see what the helper put there (`elems` stays the union).
+  closure              analysed where it is *called*, with the values its free variables have then (late binding,
+                       parameters of the enclosing function included); origins of the enclosing function pass
+                       through, its own parameters are replaced by the actual arguments.  Its in-place sites are
+                       recorded once, against the join of everything its free variables are ever bound to.
 """
 from __future__ import annotations
 
@@ -108,10 +120,17 @@ def join(a: AV | None, b: AV | None) -> AV | None:
         fb = b.fields if b.fields is not None else {}
         # a side without field information that is a view contributes view-of-own for every field
         fields = {}
+
+        def side(v, fv, k):
+            if v.fields is not None:
+                return fv.get(k)
+            if not (v.own or v.elems):
+                return None
+            if k.startswith("#"):                    # positional element of a tuple: any content of the other side
+                return AV(v.own | v.elems)
+            return attr_of(v, k)
         for k in set(fa) | set(fb):
-            va = fa.get(k) if a.fields is not None else (attr_of(a, k) if a.own or a.elems else None)
-            vb = fb.get(k) if b.fields is not None else (attr_of(b, k) if b.own or b.elems else None)
-            fields[k] = join(va, vb) or FRESH
+            fields[k] = join(side(a, fa, k), side(b, fb, k)) or FRESH
     return AV(a.own | b.own, a.elems | b.elems, fields,
               a.cls if a.cls == b.cls else None, a.nd and b.nd, a.seq and b.seq,
               a.ext if a.ext == b.ext else None)
@@ -272,14 +291,15 @@ class ClassInfo:
 
 
 class ModuleInfo:
-    def __init__(self, rel, dotted):
+    def __init__(self, rel, dotted, src=None):
         self.rel = rel
         self.dotted = dotted
         path = os.path.join(cfront.REPO, rel)
-        try:
-            src = open(path).read()
-        except OSError as e:
-            raise AnalysisError(f"anchor file missing: {rel} ({e})")
+        if src is None:
+            try:
+                src = open(path).read()
+            except OSError as e:
+                raise AnalysisError(f"anchor file missing: {rel} ({e})")
         try:
             self.tree = ast.parse(src, filename=path)
         except SyntaxError as e:
@@ -366,18 +386,21 @@ class Summary:
         self.mutates = []          # (origin, kind, line, target) for in-place operations on parameter-owned memory
         self.sites = []            # all classified mutation sites of the function body
         self.self_fields = None    # for __init__/__post_init__: field -> AV stored on self
+        self.owned = []            # parameters whose memory belongs to the caller (non-scalar), in order
+        self.exempt = set()        # of those, the registry receivers (Program.exempt)
 
 
 class Program:
     """exempt_receivers: {class name: reason} — `self` of these classes is not a series/array passed in."""
 
-    def __init__(self, files, exempt_receivers=None):
+    def __init__(self, files, exempt_receivers=None, sources=None):
+        """sources: {rel: text} analyses in-memory text instead of the file (front-end self-probes)"""
         self.mods = {}
         for rel in files:
             dotted = rel[:-3].replace("/", ".")
             if dotted.startswith("python."):
                 dotted = dotted[len("python."):]
-            self.mods[dotted] = ModuleInfo(rel, dotted)
+            self.mods[dotted] = ModuleInfo(rel, dotted, (sources or {}).get(rel))
         self.exempt = dict(exempt_receivers or {})
         self.private_called = set()      # qualnames of private helpers that are called inside the program
         self._scan_private_calls()
@@ -425,6 +448,36 @@ class Program:
                     for f in names.get(nm, ()):
                         self.private_called.add(f.qual)
 
+    # -- entry points and what they reach
+    def is_entry_point(self, f: FuncInfo) -> bool:
+        """a function whose parameters are owned by a caller outside the analysed modules: everything but the
+        private helpers that are called inside the program (those are judged at their call sites)"""
+        return not (f.private and f.qual in self.private_called)
+
+    def reach(self, f: FuncInfo):
+        """functions of the program reachable from f through calls (resolved by leaf name: an over-approximation)"""
+        if not hasattr(self, "_by_name"):
+            self._by_name = {}
+            for g in self.all_functions():
+                self._by_name.setdefault(g.name, []).append(g)
+            self._callees = {}
+        seen, todo = {}, [f]
+        while todo:
+            g = todo.pop()
+            if g.qual in seen:
+                continue
+            seen[g.qual] = g
+            if g.qual not in self._callees:
+                out = []
+                for n in ast.walk(g.node):
+                    if isinstance(n, ast.Call):
+                        fn = n.func
+                        nm = fn.id if isinstance(fn, ast.Name) else fn.attr if isinstance(fn, ast.Attribute) else None
+                        out.extend(self._by_name.get(nm, ()))
+                self._callees[g.qual] = out
+            todo.extend(self._callees[g.qual])
+        return list(seen.values())
+
     # -- driver
     def summary(self, f: FuncInfo) -> Summary | None:
         if f.summary is not None:
@@ -469,14 +522,36 @@ class FuncAnalyser:
         self.outer_env = outer_env or {}
         self.assigned = {}          # name -> join of everything ever assigned (for nested functions)
         self.nested = []
+        self.closures = {}
+        self.closure_depth = 0
         self.locals = set()
         for n in ast.walk(f.node):
             if isinstance(n, ast.Name) and isinstance(n.ctx, (ast.Store, ast.Del)):
                 self.locals.add(n.id)
             elif isinstance(n, (ast.Global, ast.Nonlocal)):
                 raise AnalysisError(f"{self.rel}:{n.lineno}: global/nonlocal is not supported by the alias analysis")
-            elif isinstance(n, (ast.Yield, ast.YieldFrom, ast.Await)) :
-                raise AnalysisError(f"{self.rel}:{n.lineno}: generators/coroutines are not supported by the alias analysis")
+            elif isinstance(n, ast.Await):
+                raise AnalysisError(f"{self.rel}:{n.lineno}: coroutines are not supported by the alias analysis")
+        # generator functions: for alias purposes a function that returns a fresh iterable whose elements are
+        # (aliases of) the yielded values.  Only the plain producer protocol is interpreted: `yield v` /
+        # `yield from xs` as statements; a value sent in, or a generator return value, is refused.
+        self.is_generator = False
+        self.yielded = None
+        own = own_nodes(f.node)
+        plain = {id(st.value) for st in own if isinstance(st, ast.Expr)}
+        for n in own:
+            if isinstance(n, (ast.Yield, ast.YieldFrom)):
+                self.is_generator = True
+                if id(n) not in plain:
+                    raise AnalysisError(f"{self.rel}:{n.lineno}: the value of a yield expression (send protocol) is not "
+                                        f"supported by the alias analysis")
+        if self.is_generator:
+            if isinstance(f.node, ast.AsyncFunctionDef):
+                raise AnalysisError(f"{self.rel}:{f.node.lineno}: async generators are not supported by the alias analysis")
+            for n in own:
+                if isinstance(n, ast.Return) and n.value is not None and not \
+                        (isinstance(n.value, ast.Constant) and n.value.value is None):
+                    raise AnalysisError(f"{self.rel}:{n.lineno}: a generator return value is not supported by the alias analysis")
         self.locals |= set(f.params) | set(f.kwonly)
         if f.vararg:
             self.locals.add(f.vararg)
@@ -516,11 +591,20 @@ class FuncAnalyser:
             env[f.vararg] = AV({f.vararg}, seq=False)
         if f.kwarg:
             env[f.kwarg] = AV({f.kwarg})
+        for p in list(f.params) + list(f.kwonly) + [x for x in (f.vararg, f.kwarg) if x]:
+            self.note_assigned(p, env[p])          # closures see the enclosing function's parameters
+            if env[p].own:
+                self.sum.owned.append(p)
+                if self.exempt_origins({p}):
+                    self.sum.exempt.add(p)
         # defaults are evaluated for their side-effect checks only
         end = self.block(f.node.body, env)
         if end is not None and self.ret is None:
             pass
         self.sum.ret = self.ret
+        if self.is_generator:
+            y = self.yielded
+            self.sum.ret = AV(frozenset(), y.all() if y is not None else frozenset())
         if f.name in ("__init__", "__post_init__") and f.cls is not None and f.params:
             final = end if end is not None else env
             sv = final.get(f.params[0])
@@ -608,8 +692,12 @@ class FuncAnalyser:
         nf.qual = self.f.qual + "." + st.name
         nf.private = False               # closures are judged in place (free variables: join of all assignments)
         self.nested.append((nf, env))
+        self.closures[st.name] = nf
         env = dict(env)
-        env[st.name] = FRESH
+        # what a call of the closure may hand back: anything its free variables hold (judged when it is called)
+        bound = set(nf.params) | set(nf.kwonly) | {x for x in (nf.vararg, nf.kwarg) if x}
+        free = {n.id for n in ast.walk(st) if isinstance(n, ast.Name) and isinstance(n.ctx, ast.Load)} - bound
+        env[st.name] = AV(ext=("closure", st.name, tuple(sorted(free))))
         return env
 
     def s_Assign(self, st, env):
@@ -762,6 +850,11 @@ class FuncAnalyser:
                     not any(isinstance(e, ast.Starred) for e in list(t.elts) + list(rhs_node.elts)):
                 for te, re_ in zip(t.elts, rhs_node.elts):
                     self.assign(te, self.ev(re_, env), env, re_)
+            elif v.ext == ("tuple", len(t.elts)) and v.fields is not None and not v.own and \
+                    not any(isinstance(te, ast.Starred) for te in t.elts) and \
+                    all("#%d" % i in v.fields for i in range(len(t.elts))):
+                for i, te in enumerate(t.elts):
+                    self.assign(te, v.fields["#%d" % i], env, None)
             else:
                 ev = self.element_of(v)
                 for te in t.elts:
@@ -922,6 +1015,11 @@ class FuncAnalyser:
         self.ev_index(e.slice, env)
         if v.ext and v.ext[0] in ("module", "classref"):
             return FRESH                          # typing subscripts such as dict[str, float]
+        if v.ext and v.ext[0] == "tuple" and v.fields is not None and not v.own:
+            k = e.slice.value if isinstance(e.slice, ast.Constant) and isinstance(e.slice.value, int) and \
+                not isinstance(e.slice.value, bool) else None
+            if k is not None and -v.ext[1] <= k < v.ext[1] and "#%d" % (k % v.ext[1]) in v.fields:
+                return v.fields["#%d" % (k % v.ext[1])]
         if self.is_fancy_index(e.slice, env):
             return fresh(nd=True, seq=True)
         own = v.own | v.elems
@@ -974,6 +1072,15 @@ class FuncAnalyser:
         env[e.target.id] = v          # env is the caller's dict; statements copy before calling ev on stores
         return v
 
+    def e_Yield(self, e, env):
+        v = self.ev(e.value, env) if e.value is not None else FRESH
+        self.yielded = join(self.yielded, v)
+        return FRESH                      # only reached as an expression statement (checked in __init__)
+
+    def e_YieldFrom(self, e, env):
+        self.yielded = join(self.yielded, self.element_of(self.ev(e.value, env)))
+        return FRESH
+
     def e_Lambda(self, e, env):
         lenv = dict(env)
         for a in e.args.posonlyargs + e.args.args + e.args.kwonlyargs:
@@ -990,7 +1097,13 @@ class FuncAnalyser:
         return AV(frozenset(), s, seq=seq)
 
     def e_Tuple(self, e, env):
-        return self.container(e.elts, env)
+        r = self.container(e.elts, env)
+        if e.elts and not any(isinstance(x, ast.Starred) for x in e.elts):
+            # a tuple is immutable and of known length: its elements are tracked by position, so that
+            # `a, b = helper(..)` / `helper(..)[1]` see the value that was put there (elems stays the union)
+            r.fields = {"#%d" % i: self.ev(x, env) for i, x in enumerate(e.elts)}
+            r.ext = ("tuple", len(e.elts))
+        return r
 
     def e_List(self, e, env):
         return self.container(e.elts, env, seq=True)
@@ -1067,6 +1180,8 @@ class FuncAnalyser:
                     return self.construct(e, cv.ext[1], args, kws, env)
                 if cv.ext in EXT_CALLABLE_FRESH:
                     return fresh(nd=True)
+                if cv.ext and cv.ext[0] == "closure":
+                    return self.call_closure(cv, args, kws, env, generic)
                 return generic([cv])
             mod = self.mod
             if name in mod.funcs:
@@ -1118,6 +1233,21 @@ class FuncAnalyser:
         if cv.ext in EXT_CALLABLE_FRESH:
             return fresh(nd=True)
         return generic([cv])
+
+    def call_closure(self, cv, args, kws, env, generic):
+        """result of calling a closure defined in this function: its body is analysed with the values its free
+        variables have at the call (late binding); origins of the enclosing function stay as they are, its own
+        parameters are replaced by the actual arguments.  Its in-place sites are recorded once, by run()."""
+        nf = self.closures.get(cv.ext[1])
+        cap = [env[v] for v in cv.ext[2] if v in env] + [self.assigned[v] for v in cv.ext[2] if v in self.assigned]
+        if nf is None or self.closure_depth >= 3:
+            return generic(cap)                 # anything it captures or is given
+        outer = dict(self.assigned)
+        outer.update(env)
+        sub = FuncAnalyser(self.prog, nf, outer_env=outer)
+        sub.closure_depth = self.closure_depth + 1
+        ssum = sub.run()
+        return self.subst(ssum.ret, self.bind(nf, None, args, kws), keep_unbound=True)
 
     def attr_store_env(self, fake, callnode, obj, attr, v, env):
         # same as attr_store but keyed on the call node
@@ -1308,7 +1438,8 @@ class FuncAnalyser:
                 actual[f.kwarg] = AV(frozenset(), cur.elems | v.all())
         return actual
 
-    def subst(self, v: AV | None, actual) -> AV:
+    def subst(self, v: AV | None, actual, keep_unbound=False) -> AV:
+        """keep_unbound: origins that are not parameters of the callee are origins of the caller already (closures)"""
         if v is None:
             return FRESH
 
@@ -1316,7 +1447,7 @@ class FuncAnalyser:
             parts = o.split(".")
             a = actual.get(parts[0])
             if a is None:
-                return FRESH
+                return AV({o}) if keep_unbound else FRESH
             for p in parts[1:]:
                 a = attr_of(a, p, self.prog)
             return a
@@ -1331,7 +1462,7 @@ class FuncAnalyser:
             elems |= r.all()
         fields = None
         if v.fields is not None:
-            fields = {k: self.subst(x, actual) for k, x in v.fields.items()}
+            fields = {k: self.subst(x, actual, keep_unbound) for k, x in v.fields.items()}
         return AV(own, own | elems, fields, v.cls, v.nd and nd_ok, v.seq, v.ext)
 
     def call_repo(self, e, f: FuncInfo, recv, args, kws, env, generic):
@@ -1414,6 +1545,19 @@ class FuncAnalyser:
                 s |= v.all()
             return AV(frozenset(), s)
         return AV(frozenset(), frozenset(), fields, clsname)
+
+
+def own_nodes(fn):
+    """nodes of a function body that belong to the function itself (not to nested functions, lambdas, classes)"""
+    out = []
+    stack = list(ast.iter_child_nodes(fn))
+    while stack:
+        n = stack.pop()
+        out.append(n)
+        if isinstance(n, (ast.FunctionDef, ast.AsyncFunctionDef, ast.Lambda, ast.ClassDef)):
+            continue
+        stack.extend(ast.iter_child_nodes(n))
+    return out
 
 
 def _text(n) -> str:
